@@ -33,7 +33,7 @@ PRELUDE = ('fn f(a) { return 1; }\ng := fn(a) { return 2; }\nh := fn(..r) { retu
            'o0 := {}\no1 := {"a": 1}\no2 := {"ab": 1, "": 2}\n')
 BIN_OPS = ["+", "-", "*", "/", "%", "==", "!=", "<", "<=", ">", ">=", "&&", "||", "===", "!==", ".."]
 ASSIGN_OPS = ["+", "-", "*", "/", "%"]
-TARGETS = ["var", "elem", "prop"]
+TARGETS = ["var", "elem", "prop", "key"]
 
 
 def allowed(op, l, r):
@@ -95,6 +95,8 @@ def cell_script(spec):
         body = f"print({{\"k\": {l}}} {op} {{\"k\": {r}}})\n"
     elif form == "elem":
         body = f"xs := [{l}]\nxs[0] {op}= {r}\nprint(xs[0])\n"
+    elif form == "key":
+        body = f"o := {{\"k\": {l}}}\nkn := \"k\"\no[kn] {op}= {r}\nprint(o[kn])\n"
     else:
         body = f"o := {{\"k\": {l}}}\no.k {op}= {r}\nprint(o.k)\n"
     return PRELUDE + body + li.trailer(PID, spec)
